@@ -342,7 +342,9 @@ static int open_common(int which, int dirfd, const char *path, int flags, mode_t
     if (c.f && c.f->kind == F_ERRNO) { fd = -1; err = (int)c.f->a; }
     else { fd = r_open64(path, flags, mode); err = errno; }
     if (fd >= 0) track_fd(fd, isdir ? 3 : (wr ? 2 : 1), path);
-    end_call(&c, path, -1, 0, fd, err, flags);
+    /* the descriptor NUMBER is not logged: it depends on what else the process has open at
+       that instant (the harness' own watchdog reads /proc), not on the plan */
+    end_call(&c, path, -1, 0, fd >= 0 ? 0 : -1, err, flags);
     errno = err;
     return fd;
 }
